@@ -7,6 +7,7 @@ import TaskctlVerif.Model.Cancel
 import TaskctlVerif.Model.CtxHooks
 import TaskctlVerif.Model.Layers
 import TaskctlVerif.Model.Vars
+import TaskctlVerif.Model.Capture
 /-!
 Line-protocol oracle: one case per line on stdin (`<family> <payload>`), one observation per line on
 stdout.  Compiled from exactly the definitions the theorems are about (core Lean only).
@@ -244,6 +245,18 @@ def argsCase (line : String) : String :=
   let args := " ".intercalate ta
   s!"ARGS=[{args}] LIST=[{q ta}] ENV=[{args}] targets={",".intercalate (Cli.targetsOf words)}"
 
+/-- `envname 612d62` (hex of the ASCII task name) -/
+def hexVal (c : Char) : Nat :=
+  if c.isDigit then c.toNat - 48 else if 'a' ≤ c ∧ c ≤ 'f' then c.toNat - 87 else 0
+
+def hexBytes : List Char → List Nat
+  | a :: b :: rest => (hexVal a * 16 + hexVal b) :: hexBytes rest
+  | _ => []
+
+def envnameCase (fields : List String) : String :=
+  let name := hexBytes ((fields.getD 0 "").toList)
+  String.ofList ((Capture.envName name).map Char.ofNat)
+
 def handle (line0 : String) : String :=
   if line0.startsWith "args " then argsCase ((line0.dropEndWhile (· == '\n')).toString) else
   let line := line0.trimAscii.toString
@@ -259,6 +272,7 @@ def handle (line0 : String) : String :=
   | "dir" :: rest => dirCase rest
   | "layers" :: rest => layersCase rest
   | "vars" :: rest => varsCase rest
+  | "envname" :: rest => envnameCase rest
   | _ => "bad-op"
 
 partial def loop (h : IO.FS.Stream) (out : IO.FS.Stream) : IO Unit := do
